@@ -49,7 +49,7 @@ func decOfText(txt string) *D {
 }
 
 func c04(c *Ctx) {
-	c.Rule = fmt.Sprintf("exhaustive: grid of %d boundary values squared x {Add,Subtract,Multiply,Divide,Modulo} x argument supplied as literal / numeric string / path to number / path to numeric string, receiver as float64 / decimal / int / numeric string; the same literals under other legal spellings (leading / trailing zeros, shifted mantissa with exponent, E+0); Sum, Average, Minimum, Maximum over lists of 0..8 grid values (as array receiver, as arguments, mixed); random: decimals of <=15 significant digits, exponents -12..12. Oracle: math/big.Rat (exact; half a unit of the 16th place for Divide/Average; a-b*trunc(a/b) for Modulo). Non-trivial = both operands non-zero; distinct by (query, data).", len(gridC04))
+	c.Rule = fmt.Sprintf("exhaustive: grid of %d boundary values squared x {Add,Subtract,Multiply,Divide,Modulo} x argument supplied as literal / numeric string / path to number / path to numeric string, receiver as float64 / decimal / int / numeric string; the same literals under other legal spellings (leading / trailing zeros, shifted mantissa with exponent, E+0); Sum, Average, Minimum, Maximum over lists of 0..8 grid values (as array receiver, as arguments, mixed); random: decimals of <=15 significant digits, exponents -12..12. Coefficient lengths: every pair of lengths 1..20 x leading-digit patterns (nines, 10^k, 2^63-1, 2^64, random) x exponent offsets for Add / Subtract / Multiply / Divide (Modulo up to 15 digits); numeric strings under every spelling decimal.NewFromString accepts (+, e+, E, leading / trailing point, zero-padded). Oracle: math/big.Rat (exact; half a unit of the 16th place for Divide/Average; a-b*trunc(a/b) for Modulo). Non-trivial = both operands non-zero; distinct by (query, data).", len(gridC04))
 	type bin struct {
 		name string
 		f    func(a, b *big.Rat) (want *big.Rat, approx bool, ok bool)
